@@ -572,3 +572,112 @@ Definition parse_text (undouble : bool) (includeEmpty : bool) (data : text) : re
   do g <- (if has_sub (T "ooTextFile short") data || negb (has_sub (T "item [") data)
            then parse_short data else parse_long undouble data);
   Ok (if includeEmpty then g else remove_blanks g).
+
+(* ------------------------------------------------------------------ *)
+(* the short-form reader with the number conversions it performs: float() on the two header
+   rows, strToIntOrFloat on each tier's span rows.  okf / okn say which tokens those
+   conversions accept (supplied by the harness from Python's own float / int); a rejected
+   token is a ValueError.  With both predicates constantly true this is parse_short. *)
+
+Definition parse_short_tier_chk (okn : text -> bool) (isint : bool) (block : text) : res rtier :=
+  do a <- fetch_row block;
+  do b <- fetch_text_row (snd a);
+  do c <- fetch_row (snd b);
+  do d <- fetch_row (snd c);
+  do e <- fetch_row (snd d);
+  if okn (fst c) && okn (fst d) then
+    let body := snd e in
+    Ok (mkRT isint (fst b) (fst c) (fst d)
+             (if isint then short_intervals (S (length body)) body else short_points (S (length body)) body))
+  else Err PyError.
+
+Fixpoint mapM_tiers_chk (okn : text -> bool) (l : list (option bool * text)) : res (list rtier) :=
+  match l with
+  | [] => Ok []
+  | (Some k, b) :: l' => do t <- parse_short_tier_chk okn k b; do r <- mapM_tiers_chk okn l'; Ok (t :: r)
+  | (None, _) :: l' => mapM_tiers_chk okn l'
+  end.
+
+Definition parse_short_chk (okf okn : text -> bool) (data : text) : res rtg :=
+  let data := crlf_to_lf data in
+  match short_blocks (S (length data)) data [] None [] with
+  | (None, header) :: blocks =>
+      match blocks with
+      | [] => Err PyError
+      | _ =>
+          let hl := split_nl header in
+          match nth_error hl 3, nth_error hl 4 with
+          | Some a, Some b =>
+              if okf (strip a) && okf (strip b) then
+                do ts <- mapM_tiers_chk okn blocks;
+                Ok (mkRTG (strip a) (strip b) ts)
+              else Err PyError
+          | _, _ => Err PyError
+          end
+      end
+  | _ => Err PyError
+  end.
+
+Lemma parse_short_tier_chk_true isint block :
+  parse_short_tier_chk (fun _ => true) isint block = parse_short_tier isint block.
+Proof.
+  unfold parse_short_tier_chk, parse_short_tier.
+  destruct (fetch_row block) as [a|]; [|reflexivity]. cbn [bind].
+  destruct (fetch_text_row (snd a)) as [b|]; [|reflexivity]. cbn [bind].
+  destruct (fetch_row (snd b)) as [c|]; [|reflexivity]. cbn [bind].
+  destruct (fetch_row (snd c)) as [d|]; [|reflexivity]. cbn [bind].
+  destruct (fetch_row (snd d)) as [e|]; reflexivity.
+Qed.
+
+Lemma mapM_tiers_chk_true l : mapM_tiers_chk (fun _ => true) l = mapM_tiers l.
+Proof.
+  induction l as [|[[k|] b] l IH]; cbn [mapM_tiers_chk mapM_tiers]; [reflexivity| |exact IH].
+  now rewrite parse_short_tier_chk_true, IH.
+Qed.
+
+Lemma parse_short_chk_true data : parse_short_chk (fun _ => true) (fun _ => true) data = parse_short data.
+Proof.
+  unfold parse_short_chk, parse_short.
+  destruct (short_blocks _ _ _ _ _) as [|[[k|] header] blocks]; try reflexivity.
+  destruct blocks as [|b blocks]; [reflexivity|].
+  destruct (nth_error (split_nl header) 3); [|reflexivity]. destruct (nth_error (split_nl header) 4); [|reflexivity].
+  cbn [andb]. now rewrite mapM_tiers_chk_true.
+Qed.
+
+(* the long-form reader with its number conversions (float() on the two header values,
+   strToIntOrFloat on each tier's span), in the source's order of evaluation *)
+Definition parse_long_tier_chk (okn : text -> bool) (undouble : bool) (tierTxt : text) : res rtier :=
+  let isint := has_sub CLASS_INT tierTxt in
+  match re_split (if isint then T "intervals" else T "points") tierTxt with
+  | [] => Err PyError
+  | header :: els =>
+      do nm <- req (search_quoted (T "name") false header);
+      do mn <- req (search_num (T "xmin") true header);
+      if negb (okn mn) then Err PyError else
+      do mx <- req (search_num (T "xmax") false header);
+      if negb (okn mx) then Err PyError else
+      do ents <- mapM_r (if isint then parse_long_interval else parse_long_point undouble) els;
+      Ok (mkRT isint (unesc nm) mn mx ents)
+  end.
+
+Definition parse_long_chk (okf okn : text -> bool) (undouble : bool) (data : text) : res rtg :=
+  let data := crlf_to_lf data in
+  match re_split (T "item") data with
+  | header :: _ :: tierTxts =>
+      let hl := split_nl header in
+      match nth_error hl 3 with
+      | Some a =>
+          do mn <- header_value a;
+          if negb (okf mn) then Err PyError else
+          match nth_error hl 4 with
+          | Some b =>
+              do mx <- header_value b;
+              if negb (okf mx) then Err PyError else
+              do ts <- mapM_r (parse_long_tier_chk okn undouble) tierTxts;
+              Ok (mkRTG mn mx ts)
+          | None => Err PyError
+          end
+      | None => Err PyError
+      end
+  | _ => Err PyError
+  end.
